@@ -18,7 +18,7 @@ func init() {
 	Register("C23", &Info{
 		Run:   runC23,
 		Quick: 7500, Thor: 1000000,
-		Rule: "a world = one generated TLS 1.3-only QUIC ClientHello spec with quic_transport_parameters (drawn suites, groups incl. ones without a share to force HelloRetryRequest, ALPN, GREASE, transport parameters) on a UQUICConn, paired with the repository's or the std library's QUIC server and driven through Start / HandleData / NextEvent by a pump task that delivers CRYPTO data in drawn chunk sizes and serves one event per step from the client or the server in a drawn interleaving (draining, eager: the server's answer is handed to HandleData before NextEvent has reported QUICNoEvent, mixed per step); after a Start that failed, HandleData and SetTransportParameters are called too; Start is given a cancelable context or one that can never be cancelled (Background, WithoutCancel); faults: context cancelled at a drawn scheduler step, Close at a drawn pump iteration, server-side failure (no common ALPN), unbuildable ClientHello (PSK parrot without session, Config.Rand failing at its n-th read, unsupported curve in a key share); oracle: fault-free worlds complete on both sides; the ClientHello (first Initial-level CRYPTO data) parses under the strict grammar with an empty legacy session id; client events: per level the write secret precedes the read secret, the application read secret comes only after HandshakeDone, peer transport parameters are delivered exactly once and equal what the server set; Start, HandleData and Close return in every world (a world in which a task is blocked forever is the violation); non-trivial = >=1 HandleData (failure stratum: the injected fault fired); distinct = (spec, server, chunking, fault)",
+		Rule: "a world = one generated TLS 1.3-only QUIC ClientHello spec with quic_transport_parameters (drawn suites, groups incl. ones without a share to force HelloRetryRequest, ALPN, GREASE, transport parameters) on a UQUICConn, paired with the repository's or the std library's QUIC server and driven through Start / HandleData / NextEvent by a pump task that delivers CRYPTO data in drawn chunk sizes and serves one event per step from the client or the server in a drawn interleaving (draining, eager: the server's answer is handed to HandleData before NextEvent has reported QUICNoEvent, mixed per step); after a Start that failed, HandleData and SetTransportParameters are called too; 35% of the fault-free worlds are the second connection of a resumption history (a first QUIC connection completes, the server sends a session ticket, the spec ends in pre_shared_key); Start is given a cancelable context or one that can never be cancelled (Background, WithoutCancel); faults: context cancelled at a drawn scheduler step, Close at a drawn pump iteration, server-side failure (no common ALPN), unbuildable ClientHello (PSK parrot without session, Config.Rand failing at its n-th read, unsupported curve in a key share); oracle: fault-free worlds complete on both sides; the ClientHello (first Initial-level CRYPTO data) parses under the strict grammar with an empty legacy session id; client events: per level the write secret precedes the read secret, the application read secret comes only after HandshakeDone, peer transport parameters are delivered exactly once and equal what the server set; Start, HandleData and Close return in every world (a world in which a task is blocked forever is the violation); non-trivial = >=1 HandleData (failure stratum: the injected fault fired); distinct = (spec, server, chunking, fault)",
 		Assumptions: []string{"the QUIC layer (packet protection, CRYPTO frames, CONNECTION_CLOSE) is the harness's pump: only the TLS-QUIC interface of RFC 9001 is exercised",
 			"no compatibility CCS can exist in QUIC (there is no record layer); the clause is covered by checking that only handshake bytes appear in CRYPTO data"},
 		Real: []string{"utls UQUICConn / UConn handshake from /repo", "utls QUICServer or std crypto/tls QUICServer"},
@@ -32,6 +32,8 @@ type quicSrv interface {
 	Next() (kind int, level int, data []byte)
 	Close() error
 	Done() bool
+	SendTicket() error
+	DidResume() bool
 }
 
 // event kinds normalised across both implementations
@@ -58,6 +60,10 @@ func (s *utlsQSrv) HandleData(l int, d []byte) error {
 	return s.c.HandleData(tls.QUICEncryptionLevel(l), d)
 }
 func (s *utlsQSrv) Close() error { return s.c.Close() }
+func (s *utlsQSrv) SendTicket() error {
+	return s.c.SendSessionTicket(tls.QUICSessionTicketOptions{})
+}
+func (s *utlsQSrv) DidResume() bool { return s.c.ConnectionState().DidResume }
 func (s *utlsQSrv) Done() bool   { return s.done }
 func (s *utlsQSrv) Next() (int, int, []byte) {
 	e := s.c.NextEvent()
@@ -77,6 +83,10 @@ func (s *stdQSrv) HandleData(l int, d []byte) error {
 	return s.c.HandleData(stdtls.QUICEncryptionLevel(l), d)
 }
 func (s *stdQSrv) Close() error { return s.c.Close() }
+func (s *stdQSrv) SendTicket() error {
+	return s.c.SendSessionTicket(stdtls.QUICSessionTicketOptions{})
+}
+func (s *stdQSrv) DidResume() bool { return s.c.ConnectionState().DidResume }
 func (s *stdQSrv) Done() bool   { return s.done }
 func (s *stdQSrv) Next() (int, int, []byte) {
 	e := s.c.NextEvent()
@@ -87,6 +97,10 @@ func (s *stdQSrv) Next() (int, int, []byte) {
 	// std (go1.26) has additional kinds after QUICStoreSession; anything above is ignored
 	return k, int(e.Level), append([]byte(nil), e.Data...)
 }
+
+// quicSpecWithPSK: the generated specs end in a pre_shared_key extension (set per world, before the
+// factory is used; one world at a time per process).
+var quicSpecWithPSK bool
 
 func genQUICSpec(ch *simrt.Chooser, tp []byte) (func() *tls.ClientHelloSpec, string) {
 	s13 := [][]uint16{{0x1301, 0x1302, 0x1303}, {0x1303, 0x1301}, {0x1302}, {0x1301}}[ch.Pick(4, "suites")]
@@ -120,6 +134,9 @@ func genQUICSpec(ch *simrt.Chooser, tp []byte) (func() *tls.ClientHelloSpec, str
 		if grease {
 			exts = append([]tls.TLSExtension{&tls.UtlsGREASEExtension{}}, exts...)
 		}
+		if quicSpecWithPSK {
+			exts = append(exts, &tls.UtlsPreSharedKeyExtension{})
+		}
 		return &tls.ClientHelloSpec{CipherSuites: cs, CompressionMethods: []byte{0}, Extensions: exts, TLSVersMin: tls.VersionTLS13, TLSVersMax: tls.VersionTLS13}
 	}, desc
 }
@@ -128,10 +145,13 @@ func runC23(c *Ctx) {
 	ch := c.Ch
 	var scid [8]byte
 	ch.Bytes(scid[:], "scid")
+	quicSpecWithPSK = false
 	newSpec, desc := genQUICSpec(ch, scid[:])
 	peer := ch.Pick(2, "peer")
 	fault := []string{"none", "none", "none", "cancel", "close", "server-fail", "unbuildable-psk", "unbuildable-rand", "unbuildable-curve"}[ch.Pick(9, "fault")]
+	resume := fault == "none" && ch.Bool(35, "quic-resume")
 	cancelAt := ch.Range(0, 400, "cancel-step")
+	quicSpecWithPSK = resume
 	closeAt := ch.Range(0, 30, "close-iter")
 	pumpMode := ch.Pick(3, "pump-mode")
 	pumpOrder := ch.U64("pump-order")
@@ -142,7 +162,7 @@ func runC23(c *Ctx) {
 	serverTP := []byte("server-transport-params-" + fmt.Sprint(ch.Pick(1000, "stp")))
 	w := c.NewWorld(simrt.Config{LockYield: ch.Bool(50, "lockyield"), UnlockYield: ch.Bool(25, "unlockyield"), PreemptPct: 10 + 20*ch.Pick(3, "preempt")})
 	ResetStamp()
-	c.R.Class = fmt.Sprintf("%s peer=%s fault=%s chunk=%d hrr=%v pump=%d ctx=%d", desc, peerName(peer), fault, chunk, forceHRR, pumpMode, ctxKind)
+	c.R.Class = fmt.Sprintf("%s peer=%s fault=%s chunk=%d hrr=%v pump=%d ctx=%d resume=%v", desc, peerName(peer), fault, chunk, forceHRR, pumpMode, ctxKind, resume)
 
 	salpn := []string{"h3", "hq-interop", "h3-29"}
 	if fault == "server-fail" {
@@ -165,15 +185,76 @@ func runC23(c *Ctx) {
 		rs.FailAt = int64(ch.Range(1, 3, "randfail-at"))
 		ccfg.Rand = rs
 	}
-	var srv quicSrv
-	if peer == PeerStd {
-		q := stdtls.QUICServer(&stdtls.QUICConfig{TLSConfig: stdcfg})
-		q.SetTransportParameters(serverTP)
-		srv = &stdQSrv{c: q}
-	} else {
+	newSrv := func() quicSrv {
+		if peer == PeerStd {
+			q := stdtls.QUICServer(&stdtls.QUICConfig{TLSConfig: stdcfg})
+			q.SetTransportParameters(serverTP)
+			return &stdQSrv{c: q}
+		}
 		q := tls.QUICServer(&tls.QUICConfig{TLSConfig: scfg})
 		q.SetTransportParameters(serverTP)
-		srv = &utlsQSrv{c: q}
+		return &utlsQSrv{c: q}
+	}
+	srv := newSrv()
+	// resumption history: a first QUIC connection (same spec, same servers) completes, the server
+	// sends a session ticket, the client stores it in its ClientSessionCache; the connection under
+	// test then offers it (the spec ends in a pre_shared_key extension)
+	if resume {
+		ccfg.ClientSessionCache = tls.NewLRUClientSessionCache(4)
+		ccfg.OmitEmptyPsk = true
+	}
+	prelimOK := false
+	prelim := func() {
+		s0 := newSrv()
+		c0 := tls.UQUICClient(&tls.QUICConfig{TLSConfig: ccfg}, tls.HelloCustom)
+		if err := c0.ApplyPreset(newSpec()); err != nil {
+			return
+		}
+		c0.SetTransportParameters(scid[:])
+		if c0.Start(context.Background()) != nil || s0.Start(context.Background()) != nil {
+			c0.Close()
+			s0.Close()
+			return
+		}
+		cdone := false
+		pumpBoth := func() {
+			for it := 0; it < 400; it++ {
+				did := false
+				for {
+					e := c0.NextEvent()
+					if e.Kind == tls.QUICNoEvent {
+						break
+					}
+					did = true
+					if e.Kind == tls.QUICWriteData {
+						s0.HandleData(int(e.Level), append([]byte(nil), e.Data...))
+					}
+					if e.Kind == tls.QUICHandshakeDone {
+						cdone = true
+					}
+				}
+				for {
+					k, lvl, d := s0.Next()
+					if k == qNone {
+						break
+					}
+					did = true
+					if k == qWriteData {
+						c0.HandleData(tls.QUICEncryptionLevel(lvl), d)
+					}
+				}
+				if !did {
+					break
+				}
+			}
+		}
+		pumpBoth()
+		if cdone && s0.Done() && s0.SendTicket() == nil {
+			pumpBoth()
+			prelimOK = true
+		}
+		c0.Close()
+		s0.Close()
 	}
 	// the context Start is given: cancelable, or one that can never be cancelled (Done() == nil:
 	// Background, TODO, WithoutCancel) - Close must end the handshake in both cases
@@ -198,8 +279,12 @@ func runC23(c *Ctx) {
 	handleCalls := 0
 	var firstFlight, serverFirst []byte
 	clientDone := false
+	clientResumed := false
 	srvFailed := false
 	pump := w.Go("pump", func() {
+		if resume {
+			prelim()
+		}
 		cq := tls.UQUICClient(&tls.QUICConfig{TLSConfig: ccfg}, id)
 		if id == tls.HelloCustom {
 			sp := newSpec()
@@ -274,6 +359,7 @@ func runC23(c *Ctx) {
 				}
 			case tls.QUICHandshakeDone:
 				clientDone = true
+				clientResumed = cq.ConnectionState().DidResume
 			}
 			return true
 		}
@@ -395,6 +481,19 @@ func runC23(c *Ctx) {
 			_ = hrr
 			c.Violate(fmt.Sprintf("quic-handshake-did-not-complete sel=%s %v", quicSel(firstFlight, serverFirst), firstErr(startErr, hdErr)), "%s: clientDone=%v serverDone=%v start=%v handle=%v srvFailed=%v", c.R.Class, clientDone, srv.Done(), startErr, hdErr, srvFailed)
 			return
+		}
+	}
+	if resume && prelimOK {
+		c.Probe("quic-second-connection-with-cached-session")
+		if len(firstFlight) >= 4 {
+			if h, err := wire.ParseClientHello(firstFlight[:4+(int(firstFlight[1])<<16|int(firstFlight[2])<<8|int(firstFlight[3]))]); err == nil && len(h.PSKIdentities) > 0 {
+				c.Probe("quic-psk-offered")
+				if clientResumed && srv.DidResume() {
+					c.Probe("quic-resumed")
+				} else if clientResumed != srv.DidResume() {
+					c.Violate("quic-did-resume-disagreement", "%s: client %v server %v", c.R.Class, clientResumed, srv.DidResume())
+				}
+			}
 		}
 	}
 	// event order on the client
